@@ -385,13 +385,14 @@ def main():
     if check.args.replay:
         with open(check.args.replay) as f:
             rp = json.load(f)
-        res = par.run_jobs(target, [{'replay': rp['replay']}], 1, timeout=300)
+        res = par.run_jobs(target, [{'replay': rp['replay'], '_env': {'PYTHONHASHSEED': rp['replay'].get('hashseed', 0)}}], 1, timeout=300)
     else:
         rng = random.Random(check.seed)
         total = int((4000 if check.thorough else 320) * check.scale)
         cases = [gen_case(rng) for _ in range(total)]
         nj = check.jobs * (4 if check.thorough else 1)
-        jobs = [{'cases': cases[i::nj]} for i in range(nj) if cases[i::nj]]
+        # one hash seed per job: the order in which the scraper hands over the links of a page varies with it
+        jobs = [{'cases': [dict(c, hashseed=i) for c in cases[i::nj]], '_env': {'PYTHONHASHSEED': i}} for i in range(nj) if cases[i::nj]]
         res = par.run_jobs(target, jobs, check.jobs, timeout=7200 if check.thorough else 900)
     for r in res:
         if '_error' in r:
